@@ -10,14 +10,16 @@ PROP = dict(
               "verifPoints delimiting the model's atomic steps, and after every harness action the position of every "
               "handler and of Close, and at the end what every client received, are compared with Sched.run on the same "
               "schedule",
-    level_text="Theorems over all schedules: C36_all_closed (full strength, no finding excluded): whenever Close was "
-               "called and nothing in the broker can move any more, Close has returned, the listener is closed, every "
+    level_text="Theorems over all schedules: C36_all_closed_modulo_findings: whenever Close was called and nothing in the "
+               "broker can move any more and no handler still waits for the CONNECT of a silent client "
+               "(KF_C36_silent_connection, refuted for the current code by C36_all_closed_refuted and reproduced on the "
+               "real code: Close blocks in ClientsWg.Wait), Close has returned, the listener is closed, every "
                "connection that reached the broker is closed, every MQTT 5 client that had been told it was connected "
                "was sent DISCONNECT 0x8B, and no handler is alive; C36_stops_accepting / C36_no_spawn_after_close; "
                "C36_waits_modulo_findings: Close returns only after every handler has finished unless a spawned handler "
                "had not yet run ClientsWg.Add when Wait returned (KF_C36_unstarted_handler, refuted for the current code by "
                "C36_waits_refuted, reproduced on the real code); C36_refuted_prefix: the pre-fix code violated "
-               "C36_all_closed (two repaired defects).  The verdict on the code is the Coq monitor on what the real "
+               "the same statement also outside that finding (two repaired defects).  The verdict on the code is the Coq monitor on what the real "
                "broker and the real clients observed.",
     level_note="Partial by nature (DESIGN section 2): the Go runtime, the OS TCP stack and sync.WaitGroup are modelled "
                "(Wait returns when the counter is 0 at entry or at the Done that makes it 0; a listener's close resets "
@@ -29,15 +31,16 @@ PROP = dict(
                "starts from).  Trusted: Coq kernel, extraction, OCaml driver, Go harness incl. harness/fsched (goroutine "
                "identity and blocked-state detection from runtime.Stack).",
     engines=[dict(hx="shutdown")],
-    theorems=["C36_all_closed", "C36_stops_accepting", "C36_no_spawn_after_close", "C36_waits_modulo_findings",
+    theorems=["C36_all_closed_modulo_findings", "C36_all_closed_refuted", "C36_stops_accepting", "C36_no_spawn_after_close", "C36_waits_modulo_findings",
               "C36_waits_refuted", "C36_refuted_prefix"],
     model_files="coq/Base/Sched.v coq/Conc/Shutdown.v",
     rule="forced schedules, real TCP listener: (1) every combination of positions {not yet dialed, spawned before "
-         "ClientsWg.Add, after Add before Clients.Add, in Clients before CONNACK, serving} of two connections at the "
-         "moment Close starts, the remaining steps of the closer (end flag, snapshot, disconnect+close listener+Wait, "
-         "return) and of the handlers randomly interleaved, late dials and clients leaving included (25 schedules, "
-         "thorough 300); (2) the same 15 position pairs with Close run through without any handler moving; (3) 20 "
-         "(thorough 1500) random schedules with three connections; (4) a dial after Close returned.  Every schedule ends "
+         "ClientsWg.Add, CONNECT read before Clients.Add, in Clients before CONNACK, serving, nothing sent and handler "
+         "waiting for the CONNECT, half of the CONNECT sent and handler waiting, nothing sent and handler not started} of "
+         "two connections at the moment Close starts (64; silent clients later send the rest, go away or stay silent), the remaining steps of the closer (end flag, snapshot, disconnect+close listener+Wait, "
+         "return) and of the handlers randomly interleaved, late dials (full, silent, partial CONNECT) and clients leaving included (64 schedules, "
+         "thorough 512); (2) the 36 position pairs with Close run through without any handler moving; (3) 20 "
+         "(thorough 1200) random schedules with three connections; (4) a dial after Close returned.  Every schedule ends "
          "by letting everything that can move run (quiescence).  Observed after every action: where every handler and "
          "Close are; at the end: per client dial result, success CONNACK, DISCONNECT (0x8B for v5), connection closed.  "
          "non-trivial = Close was called and at least one connection reached the broker",
@@ -46,6 +49,5 @@ PROP = dict(
              "SendConnack, read loop, teardown), DisconnectClient as 'write DISCONNECT, close'; listeners/listeners.go "
              "CloseAll + ClientsWg.Wait; listeners/tcp.go Serve and Close (end flag, accept, spawn, listener close)",
     assumptions=["one listener; clients use distinct client ids and clean sessions (no takeover during shutdown)",
-                 "a client sends its CONNECT right after connecting",
                  "hooks do not block (OnStopped / hook Stop are outside the model)"],
 )
